@@ -1,5 +1,5 @@
 SPECIFICATION Spec
-CONSTANTS Family = "sha"  MaxTrials = 3  MaxStep = 2  MaxVal = 1  MaxReports = 3  WithNaN = TRUE
+CONSTANTS Family = "sha"  MaxTrials = 2  MaxStep = 2  MaxVal = 1  MaxReports = 3  WithNaN = TRUE
           FinishStates = {"COMPLETE"}
 INVARIANT AlgoWithinEnvelope
 INVARIANT EnvelopeSatisfiable
